@@ -21,12 +21,22 @@ CLAIMED = {
    text="Seeded clusters/labels/policies/RF/placements are fed to the real ensemble selector and to a real load balancer over real status/config resources; every returned ensemble and every proposed swap is checked against the property's predicate (RF distinct members of the cluster, strict anti-affinity, target not in the ensemble, one member replaced). Panics are verdicts.",
    note="For a strict rule listing several labels only the reading common to both plausible semantics is enforced (two members agreeing on all labels of the rule); members that left the cluster config have no labels and are not compared.",
    technique="predicate oracle over seeded inputs (selectors) and over the balancer's action stream"),
+ "C12": dict(engine="kvmodel", level="exploration",
+   text="Seeded request sequences against an RF=1 leader (real WAL, Pebble, session and index callbacks); every response field and, periodically and after restarts, the whole user-visible state plus the raw DB (shadow keys, index entries, session keys) is compared with a sequential reference model written from the property text, with an independent implementation of the key order.",
+   note="The model is a second implementation (disagreements are triaged against the property text first); version ids are only required to be strictly increasing, the actual ids are adopted by the model.",
+   technique="reference-model monitor (differential testing against a sequential spec)"),
+ "C13": dict(engine="kvmodel", level="exploration",
+   text="Protobuf-level hostile WriteRequests from a fixed feature table are sent to an RF=1 leader; a request either is refused before it reaches the log (InvalidArgument and the WAL did not grow) or must yield a per-operation status; afterwards the node must restart and lead again without its term regressing, a fresh replica must be able to apply the whole log, and the notification stream must be readable. After an apply error the node is examined, replaced, and the sequence continues, so one finding does not mask the following features.",
+   note="Goes through LeaderController.WriteBlock, the entry point the public RPC server calls for every client write.",
+   technique="hostile-input fault injection + total-function oracle (no error / no panic / restartable / replayable)"),
 }
 
 NOT_APPLICABLE = {}
 DEFAULT_NA = "check not built yet in this session (work in progress)"
 
 ENGINES = [
+ {"name": "kvmodel", "path": "harness/engines/kvmodel", "serves_properties": ["C12", "C13", "C14", "C15", "C16", "C17"],
+  "kind_free_text": "RF=1 leader (real WAL/Pebble/callbacks) vs sequential reference model; hostile protobuf-level requests"},
  {"name": "coordpure", "path": "harness/engines/coordpure", "serves_properties": ["C18", "C19"],
   "kind_free_text": "coordinator decision functions (shard ranges, cluster-change folding, ensemble selection, balancer proposals)"},
  {"name": "walmodel", "path": "harness/engines/walmodel", "serves_properties": ["C09", "C10"],
